@@ -120,7 +120,7 @@ PROPS["C06"] = _hist(
     lambda f: f["auto_groups"] >= 2 and f["pages"] >= 5,
     ["C06_potential", "C06_resolves_after_insert", "reports_checked"],
     ["Traph.__add_page", "Traph.get_potential_prefix", "Traph.add_webentity_creation_rule_iter", "LRUTrieWalkHistory.rules_to_apply", "lru_variations"],
-    Q(640), T(5000),
+    Q(640, rulebig=1150), T(5000, rulebig=2300),
 )
 
 PROPS["C07"] = _hist(
